@@ -116,6 +116,9 @@ def rule_accesspath(P) -> RuleResult:
             for k in ('paths', 'calls', 'keys'):
                 if sorted(want.get(k, [])) != got[k]:
                     diffs.append(f'{k}: reads {got[k]}, the column is defined as {sorted(want.get(k, []))}')
+            if 'call_consts' in want and sorted(want['call_consts']) != got['call_consts']:
+                diffs.append(f'options fixed in the calls it makes: now {got["call_consts"] or "none"}, on record '
+                             f'{sorted(want["call_consts"]) or "none"}')
             if 'consts' in want and sorted(want['consts']) != got['consts']:
                 diffs.append(f'values not read from the ledger: it can give {got["consts"] or "none"}, the column is defined with '
                              f'{sorted(want["consts"]) or "none"} (NULL where the ledger has nothing, never a made-up value)')
